@@ -17793,6 +17793,10 @@ int cg_array_write(const char * ArrayName, CGNS_ENUMT(DataType_t) DataType,
         cgi_error("Invalid datatype for data array:  %d", DataType);
         return CG_ERROR;
     }
+    if (DataDimension<=0) {
+        cgi_error("Invalid number of dimensions for data array:  %d", DataDimension);
+        return CG_ERROR;
+    }
     if (DataDimension>12) {
         cgi_error("Data arrays are limited to 12 dimensions");
         return CG_ERROR;
